@@ -100,6 +100,11 @@ def case(draw, mmax=8, allow_r=True, force_m=None):
     root = h[topo.root]
     extra = draw(logu(0.05, 3.0))
     x0 = root + extra
+    # the removal probability only evaluates with one epoch on the pinned tree (known finding for several): draw it
+    # mostly there so that the option is exercised with every sampling scheme
+    want_r = allow_r and draw(st.integers(0, 3)) == 0
+    if want_r and force_m is None and draw(st.integers(0, 3)) > 0:
+        force_m = 1
     m = force_m or draw(st.integers(1, mmax))
     internal = [h[i] for i in range(n, 2 * n - 1)]
     # boundary heights
@@ -160,7 +165,7 @@ def case(draw, mmax=8, allow_r=True, force_m=None):
         # a boundary given as a fraction of the origin is a rounded product: exact coincidence with a
         # sampling time cannot be expressed reliably with relative times
         c["relative"] = False
-    if allow_r and draw(st.integers(0, 3)) == 0:
+    if want_r:
         c["r"] = [draw(fl(0.05, 1.0)) for _ in range(m)] if draw(st.booleans()) else [1.0] * m
     c["f32default"] = draw(st.sampled_from([False, False, True]))
     # further parameter sets evaluated in the same call (a sample dimension): factors for R and for the positive rho's
